@@ -335,6 +335,12 @@ class Run:
             return [self.apply(sub, None, True) if live else self.apply(sub, {}, False) for sub in st["steps"]]
         if op == "m":
             obj = get(st["on"])
+            if st.get("basis_arg"):
+                import quara.objects.matrix_basis as mb
+
+                c = obj.composite_system
+                b = {"own": c.basis, "comp": c.comp_basis, "pauli": (mb.get_normalized_pauli_basis if c.dim == 2 else mb.get_normalized_gell_mann_basis)}[st["basis_arg"]]()
+                return obj.convert_basis(b)
             return getattr(obj, st["name"])(*st.get("args", []), **st.get("kwargs", {}))
         if op == "csys_q":
             c = get(st["csys"])
@@ -401,7 +407,17 @@ class Run:
                 return operators.compose_qoperations(lst)
             return operators.compose_qoperations(*[get(i) for i in st["ids"]])
         if op == "tensor":
+            if st.get("as_list") is not None:
+                return operators.tensor_product(get(st["as_list"]))  # the caller's own list object
             return operators.tensor_product(*[get(i) for i in st["ids"]])
+        if op == "csys_new":
+            from quara.objects.composite_system import CompositeSystem
+
+            lst = [get(i) for i in st["ids"]]  # the caller's list of elemental systems, in the caller's order
+            keep = list(lst)
+            c = CompositeSystem(lst)
+            return {"out": {"names": [e.name for e in c.elemental_systems], "dim": int(c.dim)},
+                    "list_unchanged": len(lst) == len(keep) and all(x is y for x, y in zip(lst, keep))}
         if op == "arith":
             a = get(st["ids"][0])
             how = st["how"]
@@ -418,7 +434,13 @@ class Run:
                 vec = np.array(st["vec"])
                 keep = vec.copy()
                 fb, tb = (getattr(mb, n)() for n in st["bases"])
-                return {"out": mb.convert_vec(vec, fb, tb), "arg_after": vec, "arg_before": keep}
+                if st.get("same_object"):
+                    tb = fb
+                out = mb.convert_vec(vec, fb, tb)
+                res = {"out": np.array(out), "arg_after": vec, "arg_before": keep}
+                if st.get("scribble"):
+                    _scribble(out)  # the caller edits the vector it was handed: its own argument must not notice
+                return res
             if name in ("calc_matrix_expansion_coefficient", "calc_hermitian_matrix_expansion_coefficient_hermitian_basis"):
                 mat = np.array(st["mat"])
                 keep = mat.copy()
@@ -576,7 +598,22 @@ class Run:
             res = est.calc_estimate_sequence(qt, seq, loss=loss, loss_option=lopt, algo=algo, algo_option=aopt, is_computation_time_required=False)
         else:
             res = est.calc_estimate_sequence(qt, seq, is_computation_time_required=False)
-        return {"estimates": [np.array(v) for v in res.estimated_var_sequence], "qop": [W.snapshot_qop(q)["arrays"] for q in res.estimated_qoperation_sequence]}
+        out = {"estimates": [np.array(v) for v in res.estimated_var_sequence], "qop": [W.snapshot_qop(q)["arrays"] for q in res.estimated_qoperation_sequence]}
+        if st.get("reread"):
+            # the caller edits what the result object handed out (a mutator on a returned estimate, the returned list
+            # shortened) and asks again: the result object must answer as before
+            first = res.estimated_qoperation_sequence
+            one = res.estimated_qoperation
+            snap = digest([[W.snapshot_qop(q) for q in first], W.snapshot_qop(one)])
+            one.set_zero()
+            if first:
+                first[0].set_zero()
+                first.pop()
+            try:
+                out["reread_ok"] = digest([[W.snapshot_qop(q) for q in res.estimated_qoperation_sequence], W.snapshot_qop(res.estimated_qoperation)]) == snap
+            except Exception:
+                out["reread_ok"] = False
+        return out
 
     def do_loss_eval(self, st, get):
         loss = get(st["loss"])
@@ -747,6 +784,11 @@ class Run:
                     if again.get(i) != d:
                         raise Violation("O1_operand_immutability", f"step {idx}: editing the value returned by {sig['name']} changed pool object {i} ({self.pool[i]['kind']})",
                                         {"step": idx, "st": to_jsonable(st), "object": i}, dict(sig, changed="via_returned_result"))
+        if isinstance(out_live, dict) and out_live.get("list_unchanged") is False:
+            raise Violation("O1_operand_immutability", f"step {idx} ({op}) re-ordered or changed the list it was given", {"step": idx, "st": to_jsonable(st)}, dict(sig, changed="argument_list"))
+        if isinstance(out_live, dict) and out_live.get("reread_ok") is False:
+            raise Violation("O1_operand_immutability", f"step {idx}: after the caller edited the estimates an estimation result had returned, the result returns other estimates than before",
+                            {"step": idx, "st": to_jsonable(st)}, dict(sig, changed="estimation_result_via_returned_estimate"))
         # ---- argument arrays passed by reference must be left alone
         if isinstance(out_live, dict) and "arg_after" in out_live:
             if digest(W.canon(out_live["arg_after"])) != digest(W.canon(out_live["arg_before"])):
@@ -945,8 +987,8 @@ def _scribble(x):
 
 def _strip(c):
     """drops the by-reference argument bookkeeping from a canonical result."""
-    if isinstance(c, dict) and "arg_after" in c:
-        return {k: v for k, v in c.items() if k not in ("arg_after", "arg_before")}
+    if isinstance(c, dict) and ("arg_after" in c or "reread_ok" in c or "list_unchanged" in c):
+        return {k: v for k, v in c.items() if k not in ("arg_after", "arg_before", "reread_ok", "list_unchanged")}
     if isinstance(c, list):
         return [_strip(x) for x in c]
     return c
@@ -1112,6 +1154,9 @@ class Generator:
             else:
                 arg = rng.randrange(len(self.pool[i].get("vecs") or self.pool[i].get("hss") or [0]))
             return {"op": "m", "on": i, "name": name, "args": [arg], "scribble": (not self.fault_free) and rng.random() < 0.2}
+        if kind in ("state", "povm", "gate") and rng.random() < 0.06:
+            # conversion into another basis - or into the very basis object the operand lives in
+            return {"op": "m", "on": i, "name": "convert_basis", "basis_arg": rng.choice(["own", "own", "comp", "pauli"]), "scribble": (not self.fault_free) and rng.random() < 0.7}
         name = rng.choice(ops.METHODS0[kind])
         st = {"op": "m", "on": i, "name": name, "scribble": (not self.fault_free) and rng.random() < 0.2}
         if name == "convert_to_comp_basis" and rng.random() < 0.6:
@@ -1243,12 +1288,24 @@ class Generator:
 
     def g_tensor(self):
         rng = self.rng
+        if rng.random() < 0.15 and len(self.ids("esys")) >= 2:
+            ids = rng.sample(self.ids("esys"), 2)
+            return {"op": "csys_new", "ids": sorted(ids, reverse=rng.random() < 0.7)}
         ka, kb = rng.choice([("state", "state"), ("povm", "povm"), ("gate", "gate"), ("mprocess", "mprocess"), ("gate", "mprocess"), ("mprocess", "gate")])
         a = [i for i in self.ids(ka, 0) if not self.pool[i].get("sampling")]
         b = [i for i in self.ids(kb, 1) if not self.pool[i].get("sampling")]
         if not a or not b:
             return None
-        return {"op": "tensor", "ids": [rng.choice(a), rng.choice(b)]}
+        ids = [rng.choice(a), rng.choice(b)]
+        if rng.random() < 0.35:
+            ids.reverse()  # the operand on the second system first
+        if rng.random() < 0.3 and ka == kb:
+            rec = {"kind": "oplist", "ids": ids}
+            self.pool.append(rec)
+            if self.pool0 is not None:
+                self.pool0.append(rec)
+            return {"op": "tensor", "ids": list(ids), "as_list": len(self.pool) - 1}
+        return {"op": "tensor", "ids": ids}
 
     def g_arith(self):
         rng = self.rng
@@ -1278,7 +1335,11 @@ class Generator:
                 st["args"] = [rng.choice([2, 3])]
             return st
         if r < 0.6:
-            return {"op": "basis_fn", "name": "convert_vec", "bases": [rng.choice(B2), rng.choice(B2)], "vec": np.array([rng.gauss(0, 1) for _ in range(4)])}
+            st = {"op": "basis_fn", "name": "convert_vec", "bases": [rng.choice(B2), rng.choice(B2)], "vec": np.array([rng.gauss(0, 1) for _ in range(4)]), "scribble": not self.fault_free}
+            if rng.random() < 0.4:
+                st["bases"][1] = st["bases"][0]
+                st["same_object"] = rng.random() < 0.6
+            return st
         m = np.array([[complex(rng.gauss(0, 1), rng.gauss(0, 1)) for _ in range(2)] for _ in range(2)])
         if r < 0.8:
             return {"op": "basis_fn", "name": "calc_matrix_expansion_coefficient", "bases": [rng.choice(B2)], "mat": m}
@@ -1401,7 +1462,8 @@ class Generator:
         t = rng.choice(tomos)
         ds = self.datasets_for(t)
         e = rng.choice(self.ids("estimator"))
-        st = {"op": "estimate", "estimator": e, "tomo": t, "dataset": rng.choice(ds), "ephemeral": rng.random() < 0.35, "reuse_address": (not self.fault_free) and rng.random() < 0.6}
+        st = {"op": "estimate", "estimator": e, "tomo": t, "dataset": rng.choice(ds), "ephemeral": rng.random() < 0.35, "reuse_address": (not self.fault_free) and rng.random() < 0.6,
+              "reread": (not self.fault_free) and rng.random() < 0.4}
         if rng.random() < 0.3 and len(ds) >= 2:
             st["sequence"] = rng.choice(ds)
         if self.pool[e]["cls"] == "lossmin":
